@@ -667,6 +667,8 @@ func Generate(prop, tier string, seed uint64) []GenCase {
 		out = append(out, genOptKnown("S-opt-known", seed)...)
 	case "C02":
 		out = genCtlTemplates("S-ctl-templates", seed)
+		out = append(out, genCtlExpect("S-ctl-expect", seed+2)...)
+		out = append(out, genCtlKnown("S-ctl-known", seed+3)...)
 		out = append(out, genCtl("S-ctl", seed+1, 400*scale, []string{"code"})...)
 	case "C06":
 		out = genFn("S-fn", seed, 300*scale)
@@ -678,6 +680,7 @@ func Generate(prop, tier string, seed uint64) []GenCase {
 		out = genAlias("S-alias", seed, 100*scale)
 	case "C19":
 		out = genDet("S-det", seed, 40*scale, 8)
+		out = append(out, genDetKnown("S-det-known", seed+1, 24)...)
 	case "C20":
 		out = genApi("S-api", seed, 150*scale)
 	case "C04":
@@ -687,6 +690,7 @@ func Generate(prop, tier string, seed uint64) []GenCase {
 		out = append(out, genOpt("S-wf-opt", seed+2, 100*scale)...)
 		out = append(out, genFn("S-wf-fn", seed+3, 100*scale)...)
 		out = append(out, genWfShapes("S-wf-shapes", seed+4)...)
+		out = append(out, genWfKnown("S-wf-known", seed+5)...)
 	case "C10":
 		out = genBuiltinCalls("S-builtin", seed, 6*scale)
 		out = append(out, genPrograms("S-prog", seed+1, 100*scale, 5, nil)...)
